@@ -117,8 +117,8 @@ EXPORT errno_t _memcmp32_s_chk(const uint32_t *dest, rsize_t dlen,
         return (RCNEGATE(ESZEROL));
     }
 
-    smax = slen * 4;
-    dmax = dlen * 4;
+    smax = SAFEC_MUL_SAT(slen, 4);
+    dmax = SAFEC_MUL_SAT(dlen, 4);
 
     if (destbos == BOS_UNKNOWN) {
         if (unlikely(dlen > RSIZE_MAX_MEM32)) {
